@@ -1234,6 +1234,28 @@ def r9(ctx):
         body_ok = len(lp.body) == 1 and norm(lp.body[0]) == "output_queue = operate(operator_stack.pop(), output_queue)"
         ctx.check(body_ok, "C01.R9", "each pop applies the popped operator to the output queue", f.module.line(lp), ctx.construct(f, text="pop body"),
                   f"loop body is `{stmt_text(lp.body[0])}`")
+    closer_matches_opener(ctx, "C01.R9")
+
+
+def closer_matches_opener(ctx, rule: str):
+    """A closing bracket is accepted only against the opening bracket of ITS kind: after the operators inside the group were applied,
+    the stack top must equal CONTEXT_CLOSERS[closer] — otherwise a syntax error."""
+    P = ctx.project
+    f = P.func("formulaic.parser.algos.tokens_to_ast.tokens_to_ast")
+    m = f.module
+    tab = m.assigns.get("CONTEXT_CLOSERS")
+    ok_tab = isinstance(tab, ast.Dict) and {const_value(k): const_value(v) for k, v in zip(tab.keys, tab.values)} == {")": "(", "]": "["}
+    ops = m.assigns.get("CONTEXT_OPENERS")
+    ok_ops = isinstance(ops, ast.Set) and sorted(const_value(e) for e in ops.elts) == ["(", "["]
+    ctx.look()
+    ctx.check(ok_tab and ok_ops, rule, "the bracket table pairs `)` with `(` and `]` with `[`", m.relpath, ctx.construct(m, text="CONTEXT_CLOSERS"),
+              f"CONTEXT_CLOSERS = `{norm(tab) if tab is not None else None}`")
+    st = [n for n in ast.walk(f.node) if isinstance(n, ast.Assign) and norm(n.targets[0]) == "starting_token"]
+    ok = len(st) == 1 and norm(st[0].value) == "CONTEXT_CLOSERS[token.token]"
+    ifs = [n for n in ast.walk(f.node) if isinstance(n, ast.If) and isinstance(n.body[0], ast.Expr) and norm(n.body[0]) == "operator_stack.pop()"]
+    ok2 = len(ifs) == 1 and norm(ifs[0].test) in ("operator_stack and operator_stack[-1].token == starting_token",) and ifs[0].orelse and isinstance(ifs[0].orelse[0], ast.Raise)
+    ctx.check(ok and ok2, rule, "a closing bracket only closes the opening bracket of its own kind, else the formula is rejected", f.where, ctx.construct(f, text="matching opener"),
+              f"closer test is `{norm(ifs[0].test) if ifs else None}` with starting_token = `{norm(st[0].value) if st else None}`: `(a + b]` would be accepted as grouping")
 
 
 def _first_conjunct_is_nonempty(test) -> bool:
@@ -1331,6 +1353,13 @@ def r10(ctx):
     ctx.check("pooled_token = token.copy_with_attrs(token=pooled_token.token + token.token)" in t and ok2, "C01.R10",
               "adjacent sign tokens are concatenated in order and the last pooled token is flushed", h.where, ctx.construct(h, text="merge order"),
               "expected pooled.token + token.token and a final `if pooled_token: yield pooled_token`")
+    # the three rewriters are generators over ALL tokens: no early exit that would skip the splitting / merging work
+    for q in (".replace_tokens", ".insert_tokens_after", ".merge_operator_tokens"):
+        g_ = P.func(U + q)
+        early = [x for x in walk_no_nested(g_.node) if isinstance(x, ast.Return)]
+        ctx.check(not early, "C01.R10", f"{q[1:]} has no early exit", g_.where, ctx.construct(g_, text="early exit"),
+                  f"`{stmt_text(early[0]) if early else ''}` leaves the token stream untouched on some inputs (e.g. merged operator tokens such as `~-` are "
+                  f"then never split, so the top-level `~` is not found)")
     # Token.split keeps the text in order
     sp = P.method("formulaic.parser.types.token.Token", "split")
     t = norm(sp.node)
